@@ -47,7 +47,7 @@ def selftest():
 
 def budget(tier):
     if tier == "quick":
-        return {"cases": 350, "shards": 3}
+        return {"cases": 450, "shards": 3}
     return {"cases": 3000, "shards": 16}
 
 
@@ -67,9 +67,31 @@ def candidates(nd):
         extra.append(st.lists(ops.subtree(nd, full=True), min_size=2, max_size=5))
     elif nd["kind"] == "secure":
         extra.append(st.sampled_from([" padded ", "tr\u00e4iling  ", "x", "multi\nline", "s3cr3t-\u00fc"]))
+        extra.append(st.sampled_from([x for x in trees.CONFUSABLE_STRINGS if x]))
+    elif nd["kind"] == "str":
+        # text that each format has to quote / escape / fold correctly (incl. U+0085, blank lines, look-alikes)
+        extra.append(st.sampled_from(trees.CONFUSABLE_STRINGS))
+        # characters that line-oriented formats treat as line breaks or must escape
+        extra.append(st.sampled_from(["\x85", "a\x85b", "\x85\x85", "\u2028", "a\u2029b", "\x0b", "\x0c", "\x1c", "\x1e", "\x7f", "\ufeffx", "a\nb\n\nc", "tab\there"]))
     elif nd["kind"] == "any":
         extra.append(trees.tree_strategy("xml", 6, top_map=False))
     return st.lists(st.one_of(base, *extra), min_size=4, max_size=4) if extra else st.lists(base, min_size=4, max_size=4)
+
+
+def _augment(spec):
+    """Every schema also gets the placements that matter most for the round trip: a list of configurations and a
+    config type whose fields have a non-trivial on-disk form (secret, bytes, digest), next to plain ones."""
+    def leaf(kind, key, **opts):
+        return {"kind": kind, "key": key, "req": False, "validator": None, "opts": opts, "default": {"mode": "none"}}
+    item_children = [leaf("secure", "secret", method="best"), leaf("bytes", "blob", encoding="hex"), leaf("challenge", "pw", alg="sha256"),
+                     leaf("int", "n"), leaf("str", "label")]
+    extra = [
+        {"kind": "schemalist", "key": "zzitems", "children": item_children, "configtype": False, "req": False},
+        {"kind": "configtype", "key": "zzct", "children": [leaf("secure", "token", method="xor"), leaf("bytes", "raw", encoding="base64"),
+                                                           {"kind": "schemalist", "key": "subs", "children": [leaf("secure", "s", method="aes"), leaf("float", "f")], "configtype": True, "req": False}]},
+    ]
+    keep = [c for c in spec["children"] if not c["key"].startswith("zz")]
+    return dict(spec, children=keep + extra)
 
 
 def strategy(tier):
@@ -84,7 +106,7 @@ def strategy(tier):
             "dyn": st.lists(st.tuples(st.integers(0, 5), st.sampled_from(["extra1", "extra2", "zz"]), trees.tree_strategy("xml", 4, top_map=False)), max_size=3),
             "opts": st.fixed_dictionaries({"pretty": st.booleans(), "root_key": st.sampled_from([None, "CONFIG", "root"]), "root_tag": st.sampled_from(["config", "cfg"])}),
         })
-    return worlds.schema_spec(tier).flatmap(hist)
+    return worlds.schema_spec(tier).map(_augment).flatmap(hist)
 
 
 # -- helpers --------------------------------------------------------------------------------------------------
